@@ -224,3 +224,33 @@ class SlaveSetValues(FunctionContract):
 
 STORE_CONTRACTS = (SeqValidate(), SeqGetValues(), SeqSetValues(), SparseValidate(), SparseGetValues(), SparseSetValues())
 SLAVE_CONTRACTS = (SlaveValidate(), SlaveGetValues(), SlaveSetValues())
+
+
+FX_OF = {'d': 2, 'c': 1, 'i': 4, 'h': 3}
+
+
+def default_blocks_lemma(E):
+    """the constructor of the real ModbusSlaveContext: a table the caller leaves out gets a fully populated block of its own.  Two contexts
+    built with any combination of supplied / omitted tables: a write to one table of the first shows in no other table of that
+    context and in no table of the second (the tables, and the units of a server, do not share storage behind the caller's back)"""
+    given = E.choice('supplied', ['', 'h', 'ch', 'di', 'dcih'])
+    names = {'d': 'di', 'c': 'co', 'i': 'ir', 'h': 'hr'}
+
+    def build():
+        return E.new(SLAVE, **{names[t]: E.new(SEQ, 0, [0] * 40) for t in given})
+    c1, c2 = build(), build()
+    t = E.choice('table', ['d', 'c', 'i', 'h'])
+    address = E.choice('address', [0, 1, 7, 30])
+    probe = [(c, u) for c in (c1, c2) for u in 'dcih' if not (c is c1 and u == t)]
+    before = [E.method(c, 'getValues', FX_OF[u], address, 2) for (c, u) in probe]
+    E.method(c1, 'setValues', FX_OF[t], address, [9, 9])
+    E.prove('init:the-write-arrived', L.eq(E.method(c1, 'getValues', FX_OF[t], address, 2), [9, 9]))
+    for k, (c, u) in enumerate(probe):
+        E.prove('init:a-write-to-one-table-shows-in-no-other-table-of-any-context[%s.%s]' % ('same' if c is c1 else 'other', u),
+                L.eq(E.method(c, 'getValues', FX_OF[u], address, 2), before[k]))
+
+
+def default_blocks_unit(prop):
+    from pyvc.unit import Unit
+    return Unit('%s/context.init.own-blocks' % prop, default_blocks_lemma, [prop],
+                functions=[SLAVE + '.__init__', SEQ + '.create', SEQ + '.__init__', SLAVE + '.setValues', SLAVE + '.getValues', SEQ + '.setValues', SEQ + '.getValues'])
